@@ -36,12 +36,18 @@ LIST_OPS = ([("assign", v) for v in ((), (0,), (1, 0), (2, 2), (0, 1, 2), (0, 3)
             + [("extend", (0, 1)), ("extend", (2,)), ("extend", ()), ("extend_gen", (1, 2)), ("extend_tuple", (2, 0)),
                ("extend_self",)]
             + [("insert", 0, e) for e in E] + [("insert_end", 2), ("insert", 1, 1)]
-            + [("setitem", 0, e) for e in E] + [("setitem", -1, 2)])
+            + [("setitem", 0, e) for e in E] + [("setitem", -1, 2)]
+            # the list extended by itself, augmented assignment through an alias, lazily computed values that read the
+            # field's own contents, and a falsy element (index 4)
+            + [("extend_itself",), ("iadd_alias", (2,)), ("assign_filter_self",), ("assign_reversed_self",),
+               ("assign_chain_self", 2), ("append", 4), ("assign", (4, 0)), ("insert", 0, 4)])
 SET_OPS = ([("assign", v) for v in ((), (0,), (1, 0), (0, 1, 2))]
            + [("assign_gen", (2, 1)), ("assign_self",), ("assign_copy",)]
            + [("ior", (e,)) for e in E] + [("ior", (1, 2))]
            + [("add", e) for e in E]
-           + [("update", (0, 1)), ("update", ()), ("update_gen", (1, 2)), ("update_self",)])
+           + [("update", (0, 1)), ("update", ()), ("update_gen", (1, 2)), ("update_self",)]
+           + [("update_itself",), ("update_two", (0,), (1, 2)), ("update_none",), ("ior_alias", (2,)),
+              ("assign_filter_self",), ("assign_chain_self", 2), ("add", 4), ("assign", (4, 0))])
 CORE_LIST = [("assign", (1, 0)), ("assign", (0, 3)), ("assign_self",), ("iadd", (2,)), ("iadd", (3,)), ("append", 0), ("append", 2), ("extend", (0, 1)),
              ("extend_gen", (1, 2)), ("insert", 0, 1), ("setitem", 0, 2)]
 CORE_SET = [("assign", (1, 0)), ("assign_self",), ("ior", (2,)), ("add", 0), ("add", 2), ("update", (0, 1)),
@@ -80,6 +86,28 @@ def unwrap(v):
     return v() if isinstance(v, weakref.ref) else v
 
 
+class Hang(Exception):
+    pass
+
+
+class watchdog:
+    """an operation that does not return within 5 s is reported instead of hanging the run"""
+
+    def __enter__(self):
+        import signal
+
+        def on_alarm(signum, frame):
+            raise Hang("the operation did not return within 5 s")
+        self.old = signal.signal(signal.SIGALRM, on_alarm)
+        signal.alarm(5)
+
+    def __exit__(self, *a):
+        import signal
+        signal.alarm(0)
+        signal.signal(signal.SIGALRM, self.old)
+        return False
+
+
 class World:
     def __init__(self, field, init, how):
         O = _ONTO
@@ -88,10 +116,12 @@ class World:
         if field == "list":
             self.owner = O.VPerson("owner")
             self.univ = [O.VCompany(f"c{i}") for i in E] + [O.VCompany("c0")]  # index 3: twin of c0 (==, same hash)
+            self.univ.append(O.VQuietCompany("quiet"))  # index 4: an element whose truth value is False
             self.fname = "member_of"
         else:
             self.owner = O.VCompany("owner")
             self.univ = [O.VPerson(f"p{i}") for i in E] + [O.VPerson("p0")]  # index 3: twin of p0
+            self.univ.append(O.VQuietPerson("quiet"))
             self.fname = "members"
         self.other = [O.VCompany("bystander"), O.VPerson("bystander_p")]
         vals = [self.univ[i] for i in init]
@@ -159,6 +189,19 @@ class World:
             elif k == "extend_self":
                 snapshot = list(m)
                 f().extend(list(f())); m.extend(snapshot)
+            elif k == "extend_itself":
+                snapshot = list(m)
+                with watchdog():
+                    f().extend(f())
+                m.extend(snapshot)
+            elif k == "iadd_alias":
+                alias = f(); alias += list(vals); m += list(vals)
+            elif k == "assign_filter_self":
+                setattr(o, n, (v for v in getattr(o, n)))
+            elif k == "assign_reversed_self":
+                setattr(o, n, reversed(getattr(o, n))); self.model = list(reversed(m))
+            elif k == "assign_chain_self":
+                setattr(o, n, itertools.chain(getattr(o, n), [U[op[1]]])); self.model = list(m) + [U[op[1]]]
             elif k == "insert":
                 f().insert(op[1], U[op[2]]); m.insert(op[1], U[op[2]])
             elif k == "insert_end":
@@ -190,6 +233,19 @@ class World:
                 f().update(v for v in vals); m.update(vals)
             elif k == "update_self":
                 f().update(list(f()))
+            elif k == "update_itself":
+                with watchdog():
+                    f().update(f())
+            elif k == "update_two":
+                f().update([U[i] for i in op[1]], [U[i] for i in op[2]]); m.update(U[i] for i in op[1] + op[2])
+            elif k == "update_none":
+                f().update()
+            elif k == "ior_alias":
+                alias = f(); alias |= set(vals); m |= set(vals)
+            elif k == "assign_filter_self":
+                setattr(o, n, (v for v in getattr(o, n)))
+            elif k == "assign_chain_self":
+                setattr(o, n, itertools.chain(getattr(o, n), [U[op[1]]])); self.model = set(m) | {U[op[1]]}
             else:
                 raise ValueError(op)
         return True
